@@ -181,6 +181,21 @@ struct Pool {
   void run(const std::function<void(int)> &j) { std::unique_lock<std::mutex> lk(m); job = j; pending = nw; ++gen; cv.notify_all(); done.wait(lk, [&] { return pending == 0; }); }
 };
 struct PoolExec { Pool *p; template <class F> void operator()(int start, int end, F &&f) const { p->run([&](int w) { for (int i = start + w; i < end; i += p->nw) f(i); }); } };
+// every public query of a spline object of its own, as raw bytes (for part (g))
+template <int S> static std::string full_query(int seed) {
+  typedef Spl<S, D> Sp; typedef typename Sp::MatrixType Mat; const int M = 2 * S; std::string out; auto put = [&](const double *p, size_t n) { out.append((const char *)p, n * sizeof(double)); };
+  for (int N : {3, 1, 4}) { Problem<D> p = opt_problem<D>(S, N, 900 + seed * 10 + N, 0.5 * seed); Problem<D> q = opt_problem<D>(S, N, 950 + seed * 10 + N, -1.0);
+    Sp s(q.T, q.P, q.t0, q.bc); (void)s.getEnergy(); s.update(p.T, p.P, p.t0, p.bc); { Sp s2(p.timepoints(), p.P, p.bc); put(s2.getTrajectory().getCoefficients().data(), (size_t)s2.getTrajectory().getCoefficients().size()); }
+    const auto &tr = s.getTrajectory(); put(tr.getCoefficients().data(), (size_t)tr.getCoefficients().size()); put(tr.getBreakpoints().data(), tr.getBreakpoints().size());
+    double e = s.getEnergy(); put(&e, 1); auto eg = s.getEnergyGrad(); put(eg.times.data(), (size_t)eg.times.size()); put(eg.inner_points.data(), (size_t)eg.inner_points.size()); put(eg.start.v.data(), D); put(eg.end.v.data(), D);
+    Mat pc = s.getEnergyPartialGradByCoeffs(); Eigen::VectorXd pt = s.getEnergyPartialGradByTimes(); put(pc.data(), (size_t)pc.size()); put(pt.data(), (size_t)pt.size());
+    Mat g = Mat::Constant(M * N, D, 0.25); for (int r = 0; r < M * N; ++r) g(r, r % D) += 0.125 * (r % 5); Eigen::VectorXd gt = Eigen::VectorXd::Constant(N, -0.5); auto pg = s.propagateGrad(g, gt); put(pg.times.data(), (size_t)pg.times.size()); put(pg.inner_points.data(), (size_t)pg.inner_points.size()); put(pg.start.p.data(), D); put(pg.end.p.data(), D);
+    int hint = 0; std::vector<double> seq = tr.generateTimeSequence(0.25 * tr.getDuration()); put(seq.data(), seq.size());
+    for (double t : seq) for (int k = 0; k <= 2; ++k) { auto v = tr.evaluate(t, k), h = tr.evaluate(t, &hint, k); put(v.data(), D); put(h.data(), D); } { auto bv = tr.evaluate(seq, 1); for (auto &v : bv) put(v.data(), D); }
+    auto d1 = tr.derivative(1); put(d1.getCoefficients().data(), (size_t)d1.getCoefficients().size()); double len = tr.getTrajectoryLength(0.125 * tr.getDuration()); put(&len, 1);
+    typename Sp::TrajectoryType::VectorType cv; for (int d = 0; d < D; ++d) cv(d) = 1.5 - d; auto kc = Sp::TrajectoryType::constant(tr.getBreakpoints(), cv); auto kv = kc.evaluate(tr.getStartTime(), 0); put(kv.data(), D); }
+  return out;
+}
 // (d) free-running pass under ThreadSanitizer: same thread bodies, no scheduler; any report aborts the process (exitcode)
 template <int S> static void part_d(Ctx &c, long &id) {
   const int reps = c.args.thorough() ? 60 : 20;
@@ -204,6 +219,14 @@ template <int S> static void part_d(Ctx &c, long &id) {
     std::vector<int> assign(N); for (int i = 0; i < N; ++i) assign[i] = i % 2; ThreadExec te{&assign, 2};
     for (int r = 0; r < reps; ++r) { typename Setup<S>::WS w; Eigen::VectorXd g; double cp = s.opt->evaluate(x, g, s.tc, s.wc, s.rc, &w, te); ++c.st.comparisons; if (!bits_equal(cp, c0) || !bits_equal(g.data(), g0.data(), g0.size())) { c.st.violate(unit, fmt("free-running threaded executor: %s N=%d differs from serial", order_name(S), N), {{"what", "free-running"}}); break; } }
     ++c.st.evaluations; ++c.st.nontrivial; c.st.seen(unit + order_name(S)); c.st.cls("(d) free-running threaded executor under TSan", reps); }
+  // (g) objects of their own on threads of their own: three threads each build, re-fit and fully query their OWN splines (same types, other data);
+  //     every byte equals what the same program computes alone (no library state is shared between objects: seeded changes C02-m4, C05-m6,
+  //     C01-m10 -- scratch buffers turned into function-local or class-level statics)
+  { long my = id++; if (c.mine(my)) { std::string unit = fmt("d:%ld", my); if (c.begin(unit)) { const int NT = 3; std::vector<std::string> ser(NT); for (int j = 0; j < NT; ++j) ser[j] = full_query<S>(j);
+      for (int r = 0; r < reps; ++r) { std::vector<std::string> par(NT); std::vector<std::thread> ts; for (int j = 0; j < NT; ++j) ts.emplace_back([&, j] { par[j] = full_query<S>(j); }); for (auto &t : ts) t.join(); ++c.st.comparisons;
+        bool bad = false; for (int j = 0; j < NT; ++j) if (par[j] != ser[j]) { c.st.violate(unit, fmt("%s: thread %d working only on its own spline objects obtained other results than the same program run alone (repetition %d)", order_name(S), j, r), {{"what", "independent-objects"}}); bad = true; break; } if (bad) break; }
+      ++c.st.evaluations; ++c.st.nontrivial; c.st.seen(unit + order_name(S)); c.st.cls("(g) independent spline objects on independent threads", reps);
+      c.st.sample(fmt("unit %s: %s: %d repetitions of 3 free-running threads, each constructing / re-fitting / fully querying its own splines (N = 3, 1, 4; both overloads; energy, gradients, propagateGrad, plain / hinted / batch evaluation, derivative, length, factories), bitwise vs the same program run alone; ThreadSanitizer monitors", unit.c_str(), order_name(S), reps)); } } }
   // pre-existing worker pool, ordinary and SUBNORMAL cost scale (running cost weight 1e-310, no energy term, two-cost overload): the entries of the
   // gradient that only the running cost feeds are subnormal; they must be the serial ones bit for bit whichever thread integrates a segment
   // (seeded change C12-m10: flush-to-zero mode switched on for the calling thread only)
